@@ -865,8 +865,8 @@ func (r *run) relabel(vs []explore.Violation) []explore.Violation {
 			var i int
 			fmt.Sscanf(m[1], "%d", &i)
 			if r.ooo[i] && (vs[k].Prop == "C01" || vs[k].Prop == "C02" || vs[k].Prop == "C05") {
-				vs[k].Sig += "+out-of-order-arrival"
-				vs[k].Msg += " [a message had reached this session's view below its highest UID]"
+				vs[k].Msg = fmt.Sprintf("[%s/%s] %s [a message had reached this session's view below its highest UID]", vs[k].Clause, vs[k].Sig, vs[k].Msg)
+				vs[k].Clause, vs[k].Sig = "ordering-defect", "+out-of-order-arrival"
 			}
 		}
 	}
